@@ -36,7 +36,7 @@ LEVELS = {
 }
 WITNESSES = ['property_failed_mid_step', 'property_failed_at_step_started', 'never_failed', 'notify_delivered',
              'event_sent_delivered', 'clock_advanced_between_steps', 'failed_between_two_entries']
-STUBS = ['failing property chart: w -> final on every meta-event name, guard FAIL() = fresh symbolic Boolean per delivery',
+STUBS = ['failing property chart: w -> final (directly, or via an eventless second macro step w -> m -> final, alternating) on every meta-event name, guard FAIL() = fresh symbolic Boolean per delivery',
          'recording property chart: internal transition per meta-event name, action REC(event, time)']
 ASSUMPTIONS = ['well-formed monitored charts over basic/compound/orthogonal/final states', 'events a / none',
                'the undocumented extra meta-event "delayed event sent" is ignored by the recording listener']
@@ -73,9 +73,13 @@ def prop_charts(g):
     fail.add_state(CompoundState('r', initial='w'), None)
     fail.add_state(BasicState('w'), 'r')
     fail.add_state(FinalState('f'), 'r')
-    for nm in NAMES:
+    # every other meta-event name reaches the final state through an eventless second macro step (w -> m -> f):
+    # the property chart must be run to stability on each delivery, not for one macro step only (R8-C10-m1)
+    fail.add_state(BasicState('m'), 'r')
+    fail.add_transition(Transition('m', 'f'))
+    for i, nm in enumerate(NAMES):
         rec.add_transition(Transition('w', None, event=nm, action='REC(event, time)'))
-        fail.add_transition(Transition('w', 'f', event=nm, guard='FAIL(event)'))
+        fail.add_transition(Transition('w', 'm' if i % 2 == 0 else 'f', event=nm, guard='FAIL(event)'))
     g.cache['props'] = (rec, fail)
     return rec, fail
 
